@@ -21,7 +21,7 @@ LEVEL_NOTE = ("Equality with the average judged at 1e-9 of the local magnitude; 
               "K1 (documented blend non-monotone for exponent < 0.132954) is matched by mechanism: exponential "
               "strategy, exponent below the bound, offending samples in a blended segment, output equal to the "
               "documentation model there.")
-TECHNIQUE = "runtime shape-predicate monitor on real strategy outputs (hull, plateau, count, monotone runs) under generated workloads"
+TECHNIQUE = "runtime shape-predicate monitor on real strategy outputs (hull, plateau, count, monotone runs) under generated workloads; thread-isolation monitor (concurrent vs sequential answers, first-use rounds with sys.monitoring yield injection)"
 RULE = ("case = one of 6 strategies x series of 2..60 points (>= 40% tie-rich integer / plateau / constant series) x "
         "x class x n in 2..64 x alpha in (0,1] or explicit a in 0..n x beta in {0,1,.5,U} x exponent in (0,4] x "
         "adaptive smoothing in (0,3]. non-trivial: a window strategy run on a non-constant series whose output "
